@@ -292,7 +292,9 @@ def compare(it, op, a, b, node):
         elif isinstance(a, VConst) and isinstance(b, VConst):
             r = a.value is b.value
         elif isinstance(a, VTens) and isinstance(b, VTens):
-            if a.obj is not b.obj:
+            if a is b:
+                r = True
+            elif a.obj is not b.obj:
                 r = False
             else:
                 r = None
